@@ -184,7 +184,7 @@ func c13Payload(peerIdx, seq int, n int, rng *rand.Rand) []byte {
 
 // checkWireLog validates the ordering properties over the server's log.
 func (x *c13) checkWireLog() {
-	permOK := map[string]bool{}    // peer IP -> a CreatePermission success covering it was delivered
+	permOK := map[string]bool{} // peer IP -> a CreatePermission success covering it was delivered
 	permReq := map[[12]byte][]string{}
 	bindReq := map[[12]byte][2]string{} // tid -> [number, peer]
 	bound := map[uint16]string{}        // confirmed number -> peer
